@@ -16,12 +16,14 @@ from tools.gen.csrc import ExtractError
 from harness.C14 import oracle
 
 # theorems of Props/C14.lean; the ones in PROPS_GEN mention the regenerated configuration / tables (Gen/Int64.lean)
-PROPS_GEN = ["no_ub", "compare_mixed_correct", "compare_mixed_correct_unsigned", "compare_mixed_correct_rat", "method_tables_ok", "dispatch_left_then_reversed_right"]
+PROPS_GEN = ["no_ub", "compare_mixed_correct", "compare_mixed_correct_unsigned", "compare_mixed_correct_rat", "method_tables_ok", "dispatch_left_then_reversed_right",
+             "nary_mod_is_left_fold", "nary_rows_complete"]
 PROPS = ["wrap_ops_eq_bitvec", "wrap_ops_in_range", "shift_ops_eq_bitvec", "divf_eq_floor_div", "mod_eq_floor_mod", "trunc_div_rem_correct",
          "mod_zero_is_dividend", "div_zero_errors", "no_ub_iff_guarded", "no_ub_partial", "ub_reachable_on_pinned",
          "cmpIntDbl_is_exact", "cmpIntDbl_eq_rat", "rnd53_exact_small_monotone_edge", "compare_mixed_correct_of_inclusive", "compare_mixed_partial",
          "compare_wrong_on_pinned", "compare_ints_correct", "unwrap_range",
-         "varops_are_left_folds", "nary_methods_wrap", "bitwise32_range_checks", "bitwise32_eq_bitvec", "num_div_is_floor_of_quotient",
+         "varops_are_left_folds", "nary_methods_wrap", "nary_methods_are_left_folds", "nary_mod_not_fold_on_pinned",
+         "chained_comparators_are_conjunctions", "chained_comparison_short_circuits", "poly_comparators_are_chains", "bitwise32_range_checks", "bitwise32_eq_bitvec", "num_div_is_floor_of_quotient",
          "num_mod_zero_is_dividend", "num_mod_floor_convention", "num_rem_is_fmod", "vm_number_handlers",
          "int_to_double_exact", "to_number_round_trip", "to_bytes_round_trip"]
 # configuration-generic lemmas (audited separately when Props/C14 does not build, to show what still holds)
@@ -29,6 +31,7 @@ LEMMAS = ["opMethod_add", "opMethod_sub", "opMethod_mul", "opMethod_and", "opMet
           "divf_eq_floor_div", "mod_eq_floor_mod", "trunc_div_rem_correct", "mod_zero_is_dividend", "div_zero_errors", "no_ub_iff_guarded", "no_ub_partial",
           "ub_reachable_on_pinned", "compareInt64Double_correct", "compareInt64Double_partial", "compareUint64Double_partial", "compareMethod_ints",
           "compare_ub_on_pinned", "decode_wf", "rnd53_small", "rnd53_big", "varopFold_eq_foldl", "methodLoop_add", "methodLoop_mul",
+          "methodLoop_zero_irrelevant", "methodLoop_eq_fold", "callCfunN_eq_fold", "comparatorLoop_conj", "comparatorLoop_first_failure", "compareReduce_eq_loop",
           "bitop32_and", "bitop32_or", "bitop32_xor", "bitop32_shl", "bitop32_sar", "bitop32_shr", "checkIntRange_iff",
           "decode_encodeInt", "unwrap_ofInt", "toNumber_eval", "toBytes_round_trip"]
 ENV = dict(os.environ, ASAN_OPTIONS="detect_leaks=0:abort_on_error=0", UBSAN_OPTIONS="print_stacktrace=0")
@@ -128,6 +131,8 @@ def witness_lines(flags):
         w += ["mod %s s:-1" % mn, "mod %s n:bff0000000000000" % mn]
     if not flags.get("modiGuard", True):
         w += ["mod t:-9223372036854775808 s:-1"]
+    if flags.get("loopZero", {}).get("mod") == "return":
+        w += ["m:mod u:7 u:0 u:3", "m:mod u:7 n:0000000000000000 t:abc"]
     if not flags.get("guard_DIVMETHOD_SIGNED", True):
         w += ["/ %s s:-1" % mn, "%% %s s:-1" % mn]
     if not flags.get("guard_DIVMETHODINVERT_SIGNED", True):
@@ -165,10 +170,12 @@ def run(ctx):
                          ", ".join(k for k in ("divfGuard", "divfiGuard", "modGuard", "modiGuard", "guard_DIVMETHOD_SIGNED", "guard_DIVMETHODINVERT_SIGNED") if not flags.get(k)))
         if flags and (flags.get("cmpS64Upper") != ">=" or flags.get("cmpU64Upper") != ">="):
             named.append("JanetModel.Props.C14.compare_mixed_correct (edge comparison of compare_int64_double / compare_uint64_double is exclusive: 2^63 resp. 2^64 reach the cast)")
+        if flags and flags.get("loopZero", {}).get("mod") == "return":
+            named.append("JanetModel.Props.C14.nary_mod_is_left_fold (the loop of DIVMETHOD ends the call at a zero divisor of `mod`: (:mod x 0 y) is x, not the fold)")
         broken += named + pb
         # the generic lemmas still hold?  (separate module, does not depend on the failing instantiations)
         ctx.broken = [x for x in ctx.broken if x not in pb]
-        lb = ctx.obligations("JanetModel.Int64.Lemmas", ["JanetModel.Int64." + t for t in LEMMAS])
+        lb = ctx.obligations("JanetModel.Int64.LemmasN", ["JanetModel.Int64." + t for t in LEMMAS])
         ctx.broken += named + pb
         broken += lb
     if not quick and not broken:
@@ -189,7 +196,8 @@ def run(ctx):
     if broken and quick:
         per_combo, n_random = 1500, 1000      # something no longer checks: search harder
     targeted = corpus_lines() + witness_lines(flags)
-    lines = targeted + oracle.gen_lines(ctx.rng, per_combo, n_random)
+    n_ieee = 105000 if quick else 1500000     # plain-number pairs for the IEEE instance (>= 10^5 on every run)
+    lines = targeted + oracle.gen_lines(ctx.rng, per_combo, n_random, n_ieee)
     seen = set()
     lines = [l for l in lines if not (l in seen or seen.add(l))]
     ctx.say("generated %d distinct cases (%d targeted)" % (len(lines), len(targeted)))
